@@ -136,6 +136,10 @@ def run_case(case):
                 for _ in range(case["hops"]):
                     radio.hop_channel()
 
+        # a second FakeBLE object on a radio of its own in the same program; nothing is ever sent on its medium
+        idle = make_spidev_radio(L.FakeBLE, Chip(sim, Medium(sim), "I"))
+        idle.__enter__()
+        idle.listen = True
         tune(rx, case.get("rx_tune"))
         rx.listen = True
         sim.advance(1 * MS)
@@ -258,6 +262,9 @@ def run_case(case):
                          "queue grew by %d for one valid packet" % grew)
             if bool(av) != bool(rx.rx_queue):
                 res.fail("C19/available-return", "available() = %r with %d queued elements" % (av, len(rx.rx_queue)))
+            if idle.available() or idle.rx_queue:
+                res.fail("C19/element-on-a-radio-that-received-nothing", "a second FakeBLE object on another radio reports %d queued element(s)" % len(idle.rx_queue))
+                return res
         # read(): arrival order, each once
         wants = [w for w in expected if w is not None]
         for i, w in enumerate(wants):
